@@ -4,6 +4,7 @@ import PMV.Proofs.PyCoreMono
 import PMV.Proofs.PyCoreImports
 import PMV.Proofs.PyCoreBindInst
 import PMV.Proofs.PyCoreRename2
+import PMV.Proofs.PyCoreHoist2
 /-
   C01 — With the default options a minified program behaves like the original.
   `Spec.PyCore` gives a first-order core of Python (ints, bools, strings, None; assignment, `if`,
@@ -23,12 +24,16 @@ import PMV.Proofs.PyCoreRename2
   condition on the renaming (`modOK`: injective on the names of the function, moves only local names, …) that
   the check evaluates on the renaming the real minifier chose; the model of applying a renaming is compared
   with `minify(rename_locals only)` text for text.
-  Partial: renaming of globals, hoisting and annotation removal are decided by the
+  T01.14: hoisting repeated literals into names (module-level and function-level, the assignments after the
+  docstrings, possibly between the renamer's parameter copies) leaves it unchanged up to the new global names,
+  under the decidable `hoistOK`; `minify_core_preserves` chains the transform pipeline, the renaming and the
+  hoisting — `minify()` with its default options on the core.
+  Partial: renaming of globals and annotation removal are decided by the
   differential-execution oracle on the real code and by the per-transform theorems of
   C02–C06/C09/C10, not by a PyCore theorem.
 -/
 namespace PMV.C01
-open PMV PMV.Transforms PMV.PyCore PMV.Minify PMV.RenameAst
+open PMV PMV.Transforms PMV.PyCore PMV.Minify PMV.RenameAst PMV.HoistAst
 
 /-- T01.1 -/
 theorem remove_pass_preserves (n : Nat) (m : Module) : run n (travModule removePass m) = run n m :=
@@ -350,5 +355,44 @@ def badRenaming : RenTable := fun _ => (fun x => if x == "b" then "a" else x, []
 
 example : modOK goodRenaming renamingWitness = true := by decide
 example : modOK badRenaming renamingWitness = false := by decide
+
+
+/-- T01.14: hoisting repeated literals preserves the behaviour of every module, for every fuel: printed lines, ending
+    and import events are the same, and every global that is not one of the new names has the same final value.
+    `w` says which constants go where (`PMV.HoistAst`); `hoistOK` is decidable and is evaluated by the check on the
+    witness read off the real minifier's output. -/
+theorem hoisting_preserves (w : HoistW) (m : Module) (h : hoistOK w m = true) (n : Nat) :
+    ObsEq (gnames w.gmod) (run n (hoistModule w m)) (run n m) := run_hoistModule w m h n
+
+/-- T01.15: `minify()` with its default options on the core — the statement-level transforms and constant folding, then
+    the renaming of function locals, then the hoisting of literals — refines the behaviour of every module that stays
+    inside the core, up to the global names introduced for hoisted literals. -/
+theorem minify_core_preserves (t : Printer.PrecTable) (sp : Token.Spacing) (orc : Fold.Oracle) (el : List String)
+    (o : Opts) (ho : CoreOnly o) (R : RenTable) (w : HoistW) (n : Nat) (m : Module)
+    (hR : modOK R (transformM t sp orc el o m) = true)
+    (hW : hoistOK w (renModule R (transformM t sp orc el o m)) = true)
+    (hcore : (run n m).ending ≠ "stuck") :
+    ObsEq (gnames w.gmod) (run n (hoistModule w (renModule R (transformM t sp orc el o m)))) (run n m) := by
+  have h1 := hoisting_preserves w _ hW n
+  rw [pipeline_then_renaming t sp orc el o ho R n m hR hcore] at h1
+  exact h1
+
+/-! non-vacuity: `def f(a): print('lit', 'lit', a); return None` / `print('lit')` / `r = f(None)` with the string held by a
+    module-level name and `None` by a local of `f` satisfies the condition; a name that the program already uses does not. -/
+
+def hoistWitnessModule : Module := ⟨[
+  .functionDef false "f" (.mk [] [.mk "a" none] none [] [] none []) [
+    .expr (.call (.name "print" .load) [.constant (.str "'lit'" [108, 105, 116]), .constant (.str "'lit'" [108, 105, 116]), .name "a" .load] []),
+    .return_ (some (.constant .none))] [] none [],
+  .expr (.call (.name "print" .load) [.constant (.str "'lit'" [108, 105, 116])] []),
+  .assign [.name "r" .store] (.call (.name "f" .load) [.constant .none] [])]⟩
+
+def goodHoist : HoistW :=
+  { proMod := [.ghost (.str "'lit'" [108, 105, 116]) "_A"], proFn := fun _ => [.ghost .none "A"] }
+def badHoist : HoistW :=
+  { proMod := [.ghost (.str "'lit'" [108, 105, 116]) "r"], proFn := fun _ => [] }
+
+example : hoistOK goodHoist hoistWitnessModule = true := by decide
+example : hoistOK badHoist hoistWitnessModule = false := by decide
 
 end PMV.C01
